@@ -571,6 +571,8 @@ func (fx *FuncExec) loopHead(li *loopInfo, pre *State) *State {
 			break
 		}
 	}
+	// old@preN(e): the state in which loop N was entered (before its first iteration)
+	pre.labels["pre"+li.name] = pre.Clone()
 	if li.spec != nil {
 		env := fx.specEnv(pre, fx.entry)
 		env.loop = li
